@@ -56,6 +56,9 @@ func c14Expr(env *core.Env, src string) *fhirpath.Expression {
 
 func strCarrier(s, kind, name string) (string, fhirpath.EvaluateOption) {
 	switch kind {
+	case "coll":
+		// a one-item collection of the caller's
+		return "%" + name, evalopts.EnvVariable(name, system.Collection{system.String(s)})
 	case "lit":
 		return model.QuoteStr(s), nil
 	case "fhir":
@@ -124,6 +127,9 @@ func c14Check(env *core.Env, fn, s, t, u string, i, j int64, carrier string) {
 		src = fmt.Sprintf("%s.replace(%s, %%u)", recv, argT)
 	case "law-split":
 		src = fmt.Sprintf("%s.substring(0, %d) & %s.substring(%d)", recv, i, recv, i)
+	case "law-this":
+		// the receiver read several times through one carrier ($this, implicit $this): every function gets the string itself
+		src = fmt.Sprintf("%s.select(substring(0, %d) & substring(%d) & '|' & upper() & '|' & $this & '|' & lower() & '|' & $this.length().toString() & '|' & replace('zq', 'y') & '|' & $this)", recv, i, i)
 	case "law-chars":
 		src = fmt.Sprintf("%s.toChars().count() = %s.length()", recv, recv)
 	case "law-index":
@@ -241,6 +247,9 @@ func c14Check(env *core.Env, fn, s, t, u string, i, j int64, carrier string) {
 	case "law-split":
 		cover = "law"
 		wantStr(s)
+	case "law-this":
+		cover = "law"
+		wantStr(s + "|" + mapRunes(s, unicode.ToUpper) + "|" + s + "|" + mapRunes(s, unicode.ToLower) + "|" + fmt.Sprint(len(rs)) + "|" + strings.ReplaceAll(s, "zq", "y") + "|" + s)
 	case "law-chars", "law-index", "law-contains":
 		cover = "law"
 		wantBool(true)
@@ -303,7 +312,7 @@ func c14Strings(env *core.Env) []string {
 		level = next
 	}
 	rng := env.Rng("strings")
-	wide := []string{"a", "b", "c", "Z", "0", " ", "'", "\"", "`", "\\", "/", "é", "ß", "€", "😀", "́", "İ", "ǆ"}
+	wide := []string{"a", "b", "c", "Z", "0", " ", "'", "\"", "`", "\\", "/", "é", "ß", "€", "😀", "́", "İ", "ǆ", "\uFFFD", "$", "1", "{", "}", ".", "*", "(", "[", "^", "ı", "ſ", "K"}
 	for k := 0; k < env.Size(120, 3000); k++ {
 		n := 5 + rng.Intn(8)
 		var b strings.Builder
@@ -343,6 +352,11 @@ func runC14(env *core.Env) {
 		for k := int64(0); k <= n; k++ {
 			c14Check(env, "law-split", s, "", "", k, 0, carrier)
 		}
+		if n > 0 {
+			for _, k := range []int64{0, n / 2, n} {
+				c14Check(env, "law-this", s, "", "", k, 0, []string{"coll", carrier}[int(k)%2])
+			}
+		}
 		// patterns: all substrings (bounded), near-misses, ''
 		pats := map[string]bool{"": true, "x": true, "é": true, "e": true, "́": true}
 		for a := 0; a < len(rs); a++ {
@@ -368,7 +382,7 @@ func runC14(env *core.Env) {
 				}
 				c14Check(env, fn, s, p, "", 0, 0, carrier)
 			}
-			c14Check(env, "replace", s, p, []string{"", "é", "zz"}[sub.Intn(3)], 0, 0, carrier)
+			c14Check(env, "replace", s, p, []string{"", "é", "zz", "$1", "$e", "${x}", "$$", "$", "\\1", "$0", "a$b"}[sub.Intn(11)], 0, 0, carrier)
 		}
 	}
 }
